@@ -1275,10 +1275,27 @@ def _lockorder_rule(chk, prog):
     tu = prog.tus["ev.c"]
     n = 0
     for fn in tu.funcs.values():
-        # loops that pile mutexes up: a lock in the body and nothing in the same body that gives it back (an unlock, or a
-        # *_with_lock helper - those return with the mutex released, which C08-LOCK establishes)
-        loops = [lp for lp in fn.nodes if lp.k in ("for", "while", "do") and any(c.k == "call" and c.callee == LOCK for c in lp.walk())
-                 and not any(c.k == "call" and (c.callee == UNLOCK or (c.callee or "").endswith("_with_lock")) for c in lp.walk())]
+        # loops that pile mutexes up: some path from a lock in the body comes round to the loop condition again without
+        # passing an unlock or a *_with_lock helper (those return with the mutex released, which C08-LOCK establishes)
+        cands = [lp for lp in fn.nodes if lp.k in ("for", "while", "do") and any(c.k == "call" and c.callee == LOCK for c in lp.walk())]
+        loops = []
+        for lp in cands:
+            body_ids = set(y.id for y in lp.walk())
+            cond = lp.kids[1] if lp.k == "for" else (lp.kids[0] if lp.k == "while" else lp.kids[-1])
+            if cond is None:
+                continue
+
+            def tr(st, x, body_ids=body_ids):
+                if x.k == "call" and x.id in body_ids:
+                    if x.callee == LOCK:
+                        return frozenset(["held"])
+                    if x.callee == UNLOCK or (x.callee or "").endswith("_with_lock"):
+                        return frozenset()
+                return st
+            IN, OUT = flow.forward(fn, frozenset(), tr, lambda a, b: a | b)
+            cond_ids = set(y.id for y in cond.walk())
+            if any("held" in st for x, st in flow.states_at(fn, IN, tr) if x.id in cond_ids):
+                loops.append(lp)
         if not loops:
             continue
         order = {id(x): i for i, x in enumerate(fn.nodes)}
@@ -1298,7 +1315,9 @@ def _lockorder_rule(chk, prog):
                               "%s takes channel mutexes one after the other in the order the program listed the channels: two "
                               "threads that select over the same two thread channels in opposite clause order each get one mutex "
                               "and wait for the other for ever" % fn.name)
-    chk.floor(rule, 1, n)
+    if n == 0:
+        chk.note("%s: no loop takes several channel mutexes without releasing them in between; nothing to order" % rule)
+    chk.floor(rule, 0, n)
 
 
 def _rawtypes_rule(chk, prog):
